@@ -18,9 +18,10 @@ import (
 )
 
 type c05Op struct {
-	Kind   string `json:"kind"` // put | delete | push
+	Kind   string `json:"kind"` // put | delete | push | idle
 	Doc    int    `json:"doc"`
-	Reread bool   `json:"reread"` // read the current revision first (otherwise use the last revision this writer knows)
+	Ms     int    `json:"ms,omitempty"` // idle: simulated time the writer lets pass (the allocator's idle release of its batch falls in here)
+	Reread bool   `json:"reread"`       // read the current revision first (otherwise use the last revision this writer knows)
 }
 
 type c05Plan struct {
@@ -69,7 +70,7 @@ func schedCfg(r *verifsim.RNG, maxSteps int) verifsim.Config {
 func c05Generate(seed uint64, tier string, index int) json.RawMessage {
 	r := verifsim.NewRNG(seed).Fork("plan")
 	p := c05Plan{}
-	p.Cfg = schedCfg(r, 6000)
+	p.Cfg = schedCfg(r, 40000)
 	p.Docs = r.Range(1, 2)
 	p.Node = nodeOpts{RevCacheSize: []int{-1, 0, 1, 3}[r.Intn(4)], FeedWorkers: r.Range(1, 3), NumVB: []int{2, 4, 8}[r.Intn(3)]}
 	p.Node.AllowConflicts = r.Chance(250)
@@ -86,9 +87,27 @@ func c05Generate(seed uint64, tier string, index int) json.RawMessage {
 			case x <= 3:
 				op.Kind = "push"
 			}
+			if r.Chance(120) {
+				prog = append(prog, c05Op{Kind: "idle", Ms: []int{300, 1450, 1500, 1600, 2500}[r.Intn(5)]})
+			}
 			prog = append(prog, op)
 		}
 		p.Writers = append(p.Writers, prog)
+	}
+	if index%8 == 5 {
+		// directed: a burst of writes (the allocator's batch grows), then the writers pause for about as long as the
+		// allocator waits before it gives its unused batch back, and write again while that release is under way
+		p.Writers = nil
+		for w := 0; w < 2; w++ {
+			var prog []c05Op
+			for i := 0; i < 3; i++ {
+				prog = append(prog, c05Op{Kind: "put", Doc: r.Intn(p.Docs), Reread: true})
+			}
+			prog = append(prog, c05Op{Kind: "idle", Ms: []int{1400, 1480, 1500, 1501, 1520, 1600}[r.Intn(6)]})
+			prog = append(prog, c05Op{Kind: "put", Doc: r.Intn(p.Docs), Reread: true})
+			p.Writers = append(p.Writers, prog)
+		}
+		p.Cfg.ClockPermille, p.Cfg.ClockStepsMs = 5, []int{1, 2, 5}
 	}
 	// fault-injecting and fault-free configurations are separate sub-batches
 	p.Faulty = index%2 == 1
@@ -133,7 +152,7 @@ func c05Shrink(raw json.RawMessage) []json.RawMessage {
 	// simplify ops
 	for w := range p.Writers {
 		for i, op := range p.Writers[w] {
-			if op.Kind != "put" {
+			if op.Kind != "put" && op.Kind != "idle" {
 				q := clone()
 				q.Writers[w][i].Kind = "put"
 				out = append(out, mustJSON(q))
@@ -261,6 +280,12 @@ func c05Run(env *verifsim.Env, raw json.RawMessage) *verifsim.Violation {
 				known[k] = v
 			}
 			for oi, op := range prog {
+				if op.Kind == "idle" {
+					rec := t.Begin("idle", op.Ms)
+					time.Sleep(time.Duration(op.Ms) * time.Millisecond)
+					rec.End(nil, nil)
+					continue
+				}
 				id := docID(op.Doc)
 				rec := t.Begin(op.Kind, map[string]any{"doc": id})
 				parent := known[id]
